@@ -298,12 +298,12 @@ func genSwapPrefix(r *Rng) (src, prior []*MNode) {
 }
 
 func genC01(g *Gen) {
-	for i := g.Vol(40, 600); i > 0; i-- {
+	for i := g.Vol(120, 1500); i > 0; i-- {
 		src, prior := genSwapPrefix(g.Rng)
 		in := L(ViewSx(src), ViewSx(prior), Bool(false), NI(0), NI(16), NI(0), Bool(false), Bool(false))
 		g.Emit(0x0101, in, true, "directed-swap-prefix-siblings")
 	}
-	n := g.Vol(160, 3000)
+	n := g.Vol(700, 8000)
 	small := []string{"a", "b", "ab", "a-b", "a b", "c", "d", "\x01", "é", ".fsutil-metadata"}
 	for i := 0; i < n; i++ {
 		r := g.Rng
